@@ -226,6 +226,24 @@ claim("C18",
       "differential oracle against git",
       "DESIGN.md §7 C18")
 
+claim("C13",
+      "Lean theorems: ISO (in a process whose shared state keeps an invariant preserved by every step and whose steps "
+      "compute their new local state independently of which invariant-satisfying shared state they see — constants, caches "
+      "of pure functions — every thread ends, under every schedule, i.e. every interleaving at step granularity and every "
+      "history of earlier calls, with the local state it reaches alone; by induction over the schedule), INV_ALWAYS, and "
+      "over the inventory that the translator regenerates from /repo/src/flowmark on every run (every module-level and "
+      "class-level binding, cached function, non-literal default argument, global/nonlocal write and mutating use, "
+      "classified conservatively): INVENTORY_CLEAN (no cell is mutable state) and CALL_PATH_FRESH (parser, renderer and "
+      "Markdown object are built inside each call). End-to-end: histories (a call after 1–6 earlier calls, and in a fresh "
+      "interpreter), threads with forced switching at function calls, reuse of one Markdown object.",
+      COMMON_NOTE + "What ties the inventory to ISO's hypotheses is the reading of the kinds (a constant is never written, "
+      "functools.cache returns what the function would compute, objects built in a call are confined to it) — Python's "
+      "semantics and Marko's object confinement, monitored by the history/thread oracle, not proved. The thread scheduler is "
+      "seeded but not fully deterministic (GIL hand-over is the interpreter's).",
+      "Lean 4 proof (schedule induction over an abstract shared-state machine) + regenerated state inventory (translator) "
+      "+ history / thread oracle",
+      "DESIGN.md §7 C13")
+
 NOT_YET = {
 }
 
